@@ -917,12 +917,14 @@ def dict_method(I, v, name, args, kw):
     else:
         if name == "get":
             kt = to_term(I.force(args[0]), c.kshape)
+            I.dmap_keys.setdefault(ref, []).append(kt)
             default = _arg(args, kw, 1, "default", NONE)
             if I.ctx.branch(z3.Select(c.dom, kt)):
                 return from_term(z3.Select(c.arr, kt), c.vshape)
             return default
         if name == "pop":
             kt = to_term(I.force(args[0]), c.kshape)
+            I.dmap_keys.setdefault(ref, []).append(kt)
             if I.ctx.branch(z3.Select(c.dom, kt)):
                 r = from_term(z3.Select(c.arr, kt), c.vshape)
                 I.set_container(ref, DMap(c.arr, z3.Store(c.dom, kt, False), c.kshape, c.vshape))
@@ -1041,6 +1043,7 @@ def delitem(I, base, idx):
             I.set_container(base.ref, c.remove(k))
             return
         kt = to_term(idx, c.kshape)
+        I.dmap_keys.setdefault(base.ref, []).append(kt)
         if I.ctx.branch(z3.Not(z3.Select(c.dom, kt))):
             I.raise_("KeyError")
         I.set_container(base.ref, DMap(c.arr, z3.Store(c.dom, kt, False), c.kshape, c.vshape))
